@@ -126,12 +126,20 @@ def rule_b(ctx, ix):
 
 def _snapshot_parts(f, selfname):
     """(reset stmt, outer loop, store stmt) of the old_states snapshot in do()."""
-    reset = [st for st in body_stmts(f.node) if isinstance(st, ast.Assign) and unparse(st.targets[0]) == '%s.old_states' % selfname]
+    fld = '%s.old_states' % selfname
+    reset = [st for st in body_stmts(f.node) if isinstance(st, ast.Assign) and any(unparse(t) == fld for t in st.targets)]
+    # `states = self.old_states = {}` / `states = self.old_states`: other names for the same dictionary
+    aliases = {fld}
+    for st in body_stmts(f.node):
+        if isinstance(st, ast.Assign):
+            tg = [unparse(t) for t in st.targets]
+            if fld in tg or unparse(st.value) == fld:
+                aliases |= {t for t in tg if t.isidentifier()}
     loops = [st for st in body_stmts(f.node) if isinstance(st, ast.For)]
     snap = None
     for lp in loops:
         for st in ast.walk(lp):
-            if isinstance(st, ast.Assign) and unparse(st.targets[0]).startswith('%s.old_states[' % selfname):
+            if isinstance(st, ast.Assign) and isinstance(st.targets[0], ast.Subscript) and unparse(st.targets[0].value) in aliases:
                 snap = (lp, st)
     return reset, snap
 
@@ -154,7 +162,7 @@ def rule_c(ctx, ix):
         inner = [x for x in lp.body if isinstance(x, ast.For)]
         ok = unparse(lp.iter) == '%s.data_collection' % s and len(inner) == 1 and \
             unparse(inner[0].iter) == '%s.subsets' % unparse(lp.target) and \
-            unparse(st.targets[0]) == '%s.old_states[%s]' % (s, unparse(inner[0].target)) and \
+            isinstance(st.targets[0], ast.Subscript) and unparse(st.targets[0].slice) == unparse(inner[0].target) and \
             unparse(st.value) == '%s.subset_state' % unparse(inner[0].target)
         pmap = parent_map(do.node)
         conds = [g for g, br in guard_chain(pmap, st, lp) if isinstance(g, ast.If)]
